@@ -21,7 +21,8 @@ cmake --build _build --target gtest -- -j${JOBS:-8} > "$D/suite.build.log" 2>&1;
 SUITE="not-run"
 if [ $BUILD = 0 ]; then
   timeout 1500 ./_build/gtest --gtest_brief=1 > "$D/suite.log" 2>&1
-  SUITE=$(grep -E "PASSED|FAILED" "$D/suite.log" | tr '\n' ' ')
+  SUITE_RC=$?
+  SUITE="$(grep -E "PASSED|FAILED" "$D/suite.log" | tr '\n' ' ')exit=$SUITE_RC"
 fi
 git checkout -q -- xenium test
 echo "RESULT seed=$SEED demo_clean_rc=$RC_CLEAN demo_patched_rc=$RC_PATCHED,$RC_PATCHED2 suite_build=$BUILD suite='$SUITE'"
